@@ -33,6 +33,10 @@ type LayoutOpts struct {
 	// millisecond count whose nanoseconds fit an int64 (year 2262), up to the
 	// largest int64
 	FarFuture bool
+	// BigZstd: some zstd batches hold one value of 140-200 KiB and are
+	// compressed by a streaming encoder set up for a 16 or 32 MiB window, which
+	// the frame header then announces (producers at high compression levels)
+	BigZstd bool
 }
 
 // genBatch builds one physical batch holding `n` consecutive offsets starting
@@ -46,6 +50,11 @@ func genBatch(t *Tape, o LayoutOpts, base int64, n int, ts *int64, tag string) r
 	}
 	b := rc.Batch{Magic: magic, Codec: codec, BaseOffset: base, LastOffsetDelta: int32(n - 1), ProducerID: -1, ProducerEpoch: -1, BaseSequence: -1, PartitionLeaderEpoch: 0}
 	keys := [][]byte{nil, {}, []byte("k"), []byte("key-longer")}
+	bigAt := -1
+	if o.BigZstd && codec == 4 && magic == 2 && t.Intn("bigz", 3) == 0 {
+		b.ZstdWindow = Pick(t, "bigz", 1<<24, 1<<25)
+		bigAt = t.Intn("bigz", n)
+	}
 	far := int64(-1)
 	if o.FarFuture && t.Intn(st, 5) == 0 {
 		far = []int64{9223372036854 - 2, 9223372036854775807 - int64(n), 1 << 53}[t.Intn(st, 3)]
@@ -54,6 +63,9 @@ func genBatch(t *Tape, o LayoutOpts, base int64, n int, ts *int64, tag string) r
 		off := base + int64(i)
 		*ts += int64(t.Intn(st, 3))
 		pad := Pick(t, st, 0, 0, 3, 30, 200)
+		if i == bigAt {
+			pad = 140000 + t.Intn("bigz", 60000)
+		}
 		val := append([]byte(fmt.Sprintf("%s%d|", tag, off)), bytes.Repeat([]byte{'v'}, pad)...)
 		r := rc.Record{Offset: off, Timestamp: *ts, Key: keys[t.Intn(st, len(keys))], Value: val}
 		if far >= 0 {
@@ -247,6 +259,9 @@ func (st *readerState) matchFrom(pos int64, m kafka.Message) (rule, msg string) 
 // may have been served from the position before it or from its target; calls
 // made after SetOffset returned are served from its target.
 func (st *readerState) checkDelivered(m kafka.Message, callInvoke int) {
+	if len(m.Value) > 100000 {
+		st.s.Count("delivered-from-large-window-zstd-batch")
+	}
 	defer func() {
 		st.delivered++
 		st.lastDelivered = m.Offset
@@ -348,6 +363,7 @@ func readerScenario(s *Sim, params map[string]string) {
 	lo.AbsInner = t.Intn("cfg", 4) == 0
 	lo.FarFuture = t.Intn("farfuture", 3) == 0
 	lo.LogAppend = t.Intn("farfuture", 3) == 0
+	lo.BigZstd = t.Intn("bigz", 3) == 0
 	if v := params["layout"]; v == "plain" {
 		lo.Holes, lo.EmptyBatch, lo.MissingTail, lo.AbsInner = false, false, false, false
 	}
@@ -472,7 +488,7 @@ func readerScenario(s *Sim, params map[string]string) {
 		at := time.Duration(t.Range("layout", 1, 6000)) * time.Millisecond
 		s.After(at, "append", func() {
 			k := t.Range("layout", 1, 4)
-			b := genBatch(t, LayoutOpts{Magics: lo.Magics, Codecs: lo.Codecs, Stream: "layout", Headers: true}, p.LEO, k, &ts, "r")
+			b := genBatch(t, LayoutOpts{Magics: lo.Magics, Codecs: lo.Codecs, Stream: "layout", Headers: true, BigZstd: lo.BigZstd}, p.LEO, k, &ts, "r")
 			cl.AppendPhysical(p, b, k)
 			s.Count("append")
 		})
